@@ -190,6 +190,12 @@ func pnftAuthRules(p *Prog, r *Report, clause string) {
 		for _, e := range w.effects {
 			site := p.Pos(e.Instr.Pos())
 			ek := hn + "→" + e.Kind + "@" + FuncName(e.Fn)
+			// a raw write under a prefix variable of the module's own (an index, a counter) changes no denom, token or owner
+			// record: the ownership schema is about those records (whether such a family is kept in step is C08's question)
+			if (e.Kind == "raw:Set" || e.Kind == "raw:Delete") && e.Key != nil && otherFamilyKey(p, e.Key) {
+				r.Note("%s writes a store family of the module's own (%s in %s): not an x/nft record", hn, e.Kind, FuncName(e.Fn))
+				continue
+			}
 			usedMut[e.Kind]++
 			switch e.Kind {
 			case "nft:SaveClass":
@@ -315,7 +321,8 @@ func pnftAuthRules(p *Prog, r *Report, clause string) {
 		}
 	}
 	for _, so := range p.StoreOps() {
-		if (so.Op == "Set" || so.Op == "Delete") && InPkgs(so.Fn, "x/pnft/keeper") {
+		// (a write under a prefix of the module's own — an index, a counter — changes no denom, token or owner record)
+		if (so.Op == "Set" || so.Op == "Delete") && InPkgs(so.Fn, "x/pnft/keeper") && !(so.Key != nil && otherFamilyKey(p, so.Key)) {
 			mutating[so.Fn] = true
 		}
 	}
